@@ -18,10 +18,16 @@ Next == UNCHANGED i
 Spec == Init /\ [][Next]_i
 
 Verdicts(ob) ==
-  LET va == IF ob.cls = "mov" THEN MovVerdict(ob.o, ob.ok, ob.w) ELSE LegVerdict(Rows, ob.rs, ob.o, ob.ok, ob.w)
+  LET va0 == IF ob.cls = "mov" THEN MovVerdict(ob.o, ob.ok, ob.w) ELSE LegVerdict(Rows, ob.rs, ob.o, ob.ok, ob.w)
+      (* an operand pattern without a row may be another WRITING of the same registers (v3.1d is d3; an untyped d3/q3 of a       *)
+      (* bytewise operation is v3.8b/v3.16b): alts lists these rewritings; the word must then be the row's encoding of them.      *)
+      va == IF va0[1] = "accepted-non-form" /\ \E a \in 1..Len(ob.alts) :
+                   LegVerdict(Rows, ob.alts[a].rs, ob.alts[a].o, ob.ok, ob.w)[1] = ""
+            THEN <<"equivalent-view", "">> ELSE va0
       vl == IF ob.lx = 0 THEN <<"", "">>
             ELSE IF ob.cls = "mov" THEN MovVerdict(ob.o, ob.lok, ob.lw) ELSE LegVerdict(Rows, ob.rs, ob.o, ob.lok, ob.lw)
       cor == CASE ob.cls = "mov" -> va[1] # "" /\ ob.lx = 1 /\ (~ob.lok \/ vl[1] = "")    \* llvm-mc has no multi-word mov
+               [] va[1] = "accepted-non-form" -> ob.lx = 1 /\ ~ob.lok       \* the independent assembler knows no such form either
                [] va[1] = "accepts-unencodable" -> (ob.lx = 1 /\ ~ob.lok) \/ ob.nl = 1
                [] va[1] \in {"field", "length"} -> ob.lx = 1 /\ ob.lok /\ vl[1] = ""
                [] OTHER -> FALSE
